@@ -9,6 +9,7 @@ ALLOWED = {"ParserError": True, "ConverterError": True, "XmlContextError": True,
 def register(db):
     collab.declare(db)
     register_wild(db)
+    register_union_bind(db)
     P = ["C15"]
     assume_method(db, "NodeParserObj", "start", raises=["ParserError", "ConverterError", "XmlContextError"])
     assume_method(db, "NodeParserObj", "end", returns="bool", raises=["ParserError", "ConverterError", "XmlContextError"])
@@ -54,6 +55,44 @@ def register(db):
             ("with-a-copy-of-the-element-attributes", "call_arg('PyList.append', 0)[2] == uf('copy.deepcopy', 'u:PyDict', attrs)"),
         ],
         raises={}, modifies=["self.level"], properties=["C09", "C15"],
+    ))
+
+
+def register_union_bind(db):
+    """UnionNode.bind: the recorded events are replayed for every candidate type with the parser configuration of the
+    caller, made strict about conversion failures only (C10: leniency about unknown content also holds inside a
+    union field)."""
+    U = f"{NODES}.union:UnionNode"
+
+    def union(mk, base):
+        return mk.obj(U, {"meta": "opaque:XmlMeta", "var": "opaque:XmlVar", "attrs": "opaque:PyDict", "ns_map": "opaque:PyDict",
+                          "position": "int", "config": "opaque:ParserConfig", "context": "opaque:XmlContext", "level": "int",
+                          "candidates": "seq[u:type]", "events": "opaque:PyList"})
+
+    def node_parser_ctor(ex, st, cref, args, kwargs):
+        """NodeParser(config=..., context=..., handler=...) as a plain record: which configuration the candidate
+        parser gets is what the contract below talks about."""
+        from pyvc.values import Obj
+        o = Obj(f"{cref.module}:{cref.qualname}", dict(kwargs))
+        yield st, st.alloc(o)
+
+    db.ctors[("xsdata.formats.dataclass.parsers.bases", "NodeParser")] = node_parser_ctor
+    db.add(Contract("xsdata.formats.dataclass.parsers.bases:NodeParser.parse", variant="call-view", trusted=True, call_default=True,
+                    params={}, returns="u:Any", raises={"ParserError": True, "ConverterError": True, "XmlContextError": True},
+                    note="call-site view of NodeParser.parse: an object or one of the documented errors"))
+    db.add(Contract(
+        f"{U}.bind", variant="outermost-end-event",
+        params={"self": union, "qname": "str", "text": "str|None", "tail": "str|None", "objects": "opaque:PyList"},
+        requires=["self.level == 0", "len(qname) > 0"],
+        ensures=[("candidates-see-the-caller-configuration-strict-about-conversion-only",
+                  "called('dataclasses.replace') == 1 and call_arg('dataclasses.replace', 0) is self.config and "
+                  "call_kwarg_names('dataclasses.replace') == ('fail_on_converter_warnings',) and "
+                  "call_kwarg('dataclasses.replace', 'fail_on_converter_warnings') == True"),
+                 ("binds-or-fails", "result == True")],
+        raises={"ParserError": True},
+        loops=[Loop(invariants=[], header="self.candidates",
+                    vars={"obj": "u:Any|None", "max_score": "real", "result": "u:Any|None", "score": "real", "parser": "u:Any"})],
+        properties=["C10", "C15"],
     ))
 
 
